@@ -2,8 +2,8 @@
   Model/TreeDerive.lean — the derive as a function into TYPE TREES (`Ts`) instead of text, for the core
   fragment: structs (named / tuple / newtype / unit / empty) and enums (externally, adjacently,
   internally tagged, untagged, per-variant `untagged`) with `rename`, `rename_all`,
-  `rename_all_fields`, `tag`, `content`, `skip`; no generics, `flatten`, `inline`, `optional`, `as`,
-  `type`. Same case analysis as `Derive.itemDef` (types/{named,tuple,newtype,unit,enum}.rs); the two
+  `rename_all_fields`, `tag`, `content`, `skip`, type parameters (generic items, any instantiation); no
+  `flatten`, `inline`, `optional`, `as`, `type`, `concrete`. Same case analysis as `Derive.itemDef` (types/{named,tuple,newtype,unit,enum}.rs); the two
   are tied at run time: the REAL `decl()` of every corpus item in the fragment, parsed, must equal
   `Tree.itemBody` (check C01, stream "tree derive").
   `Props/C01.lean` proves: what the serde model emits for a value of such an item inhabits this tree.
@@ -112,7 +112,7 @@ def itemBody (cfg : Cfg) (env : Env) (it : Item) : Option Ts :=
 
 /-- all declarations of a program -/
 def declsOf (cfg : Cfg) (env : Env) : Decls :=
-  env.filterMap fun it => (itemBody cfg env it).map fun b => (Derive.tsName it, [], b)
+  env.filterMap fun it => (itemBody cfg env it).map fun b => (Derive.tsName it, it.generics.map (·.name), b)
 
 /-! ### the fragment (decidable) -/
 
@@ -141,7 +141,7 @@ def variantOk (cfg : Cfg) (it : Item) (v : Variant) : Bool :=
           | _ => bodyOk cfg renameAll none v.shape v.fields))
 
 def itemOk (cfg : Cfg) (it : Item) : Bool :=
-  it.generics.isEmpty && it.attr.typeAs.isNone && it.attr.typeOverride.isNone && it.attr.concrete.isEmpty
+  it.attr.typeAs.isNone && it.attr.typeOverride.isNone && it.attr.concrete.isEmpty
   && it.attr.optionalFields == .no
   && (if it.isEnum then it.variants.all (variantOk cfg it)
       else bodyOk cfg it.attr.renameAll it.attr.tag it.shape it.fields
